@@ -20,7 +20,8 @@ impl = c09.impl
 def oracle(line, out):
     if not out.startswith("ok") and not out.startswith("D1"):
         return None
-    for note in ("nondeterministic-write", "bytes-differ-G2-G3", "element-outside-namespace", "definition-altered-by-write"):
+    for note in ("nondeterministic-write", "bytes-differ-G2-G3", "element-outside-namespace", "definition-altered-by-write",
+                 "write_xml-differs", "write_xml-failed", "undated-write-failed"):
         if note in out:
             return False
     st = c09.stages(out)
